@@ -32,8 +32,9 @@ func NewMP4ChunkParser(r io.Reader, buf []byte, callback func(cd ChunkData) erro
 func (p *MP4ChunkParser) Parse() error {
 	// No content-length, so read multiple times until EOF
 	currBox := ""
-	nextBoxStart := uint32(0)
-	mdatEnd := uint32(0)
+	// Offsets are int: a declared 32-bit box size added to a uint32 offset can wrap around
+	nextBoxStart := 0
+	mdatEnd := 0
 	cd := ChunkData{
 		Start:         0,
 		IsInitSegment: false,
@@ -42,8 +43,8 @@ func (p *MP4ChunkParser) Parse() error {
 	for {
 		// An error (including io.EOF) may arrive together with data.
 		// That data is processed before the error is considered.
-		pending := p.readUntil(int(nextBoxStart) + 8)
-		if p.contentEnd < int(nextBoxStart)+8 { // No complete box header
+		pending := p.readUntil(nextBoxStart + 8)
+		if p.contentEnd < nextBoxStart+8 { // No complete box header
 			if pending != io.EOF {
 				return pending
 			}
@@ -59,7 +60,7 @@ func (p *MP4ChunkParser) Parse() error {
 			// Without this check, a zero size makes the loop spin without reading any more data.
 			return fmt.Errorf("chunkparser: unsupported size %d of box %q", size, currBox)
 		}
-		nextBoxStart += size
+		nextBoxStart += int(size)
 		switch currBox {
 		case "moov":
 			cd.IsInitSegment = true
@@ -67,9 +68,9 @@ func (p *MP4ChunkParser) Parse() error {
 			mdatEnd = nextBoxStart
 		}
 		if pending == nil {
-			pending = p.readUntil(int(nextBoxStart))
+			pending = p.readUntil(nextBoxStart)
 		}
-		if mdatEnd != 0 && mdatEnd == uint32(p.contentEnd) {
+		if mdatEnd != 0 && mdatEnd == p.contentEnd {
 			// mdat is complete
 			cd.Data = p.buf[:mdatEnd]
 			err := p.callBack(cd)
@@ -77,10 +78,10 @@ func (p *MP4ChunkParser) Parse() error {
 				return err
 			}
 			// Reset for next chunk
-			cd.Start += mdatEnd
+			cd.Start += uint32(mdatEnd)
 			cd.Data = nil
 			copy(p.buf, p.buf[mdatEnd:p.contentEnd])
-			p.contentEnd -= int(mdatEnd)
+			p.contentEnd -= mdatEnd
 			nextBoxStart -= mdatEnd
 			mdatEnd = 0
 		}
